@@ -602,12 +602,32 @@ def concat(arrays, /, *, axis: int | None = 0):
     if axis is None:
         arrays = [reshape(x, [-1]) for x in arrays]
         axis = 0
-    if builtins.any(not isinstance(array.dtype, CoreType) for array in arrays):
+    arrays = list(arrays)
+    if builtins.any(
+        not isinstance(array.dtype, (CoreType, NullableCore)) for array in arrays
+    ):
         raise UnsupportedOperationError(
-            "concat is not supported for non-core types at this time"
+            "concat is not supported for user-defined types at this time"
         )
-    arrays = promote(*arrays)
-    return _from_corearray(opx.concat([array._core() for array in arrays], axis=axis))
+    if builtins.any(array.dtype != arrays[0].dtype for array in arrays):
+        # differing dtypes need a common dtype; identical (possibly user-defined) ones do not
+        arrays = promote(*arrays)
+    return _concat_fields(arrays, axis)
+
+
+def _concat_fields(arrays, axis):
+    """Concatenate arrays of one dtype; struct dtypes are concatenated field by field."""
+    dtype = arrays[0].dtype
+    if isinstance(dtype, CoreType):
+        return _from_corearray(
+            opx.concat([array._core() for array in arrays], axis=axis)
+        )
+    fields = {}
+    for name in dtype._fields():
+        parts = [array._fields[name] for array in arrays]
+        parts = [p if isinstance(p, Array) else _from_corearray(p) for p in parts]
+        fields[name] = _concat_fields(parts, axis)
+    return Array._from_fields(dtype, **fields)
 
 
 def expand_dims(x, axis=0):
